@@ -132,9 +132,13 @@ def solveRows (rows : TL) (unknowns : List Var) : Option (List (Var × PTerm)) :
 def reduceWith (t : PTerm) (rows : TL) (forbidden : List Var) : TacticRes :=
   let toSolve := Gen.list_intersection (TL.vars rows) forbidden
   if rows.length != toSolve.length then .error .valueError
+  else if !decide toSolve.Nodup then .error .oracleStuck   -- a repeated key: impossible for dict-keyed terms
   else match solveRows rows toSolve with
     | none => .error .oracleStuck       -- singular system: sympy's (partial / empty) answer is not modelled
     | some sols => .ok (some (sols.foldl (fun acc p => acc.subst p.1 p.2) t))
+
+/-- `transform_coeff` -/
+def tcOf (refine : Bool) : Rat := if refine then 1 else -1
 
 /-- one candidate row of `_get_kaykobad_context` for the `i`-th forbidden variable: the residuals if the row passes the
     three Kaykobad tests -/
@@ -142,8 +146,7 @@ def kayRow (t ct : PTerm) (forbidden other : List Var) (refine : Bool) (i : Nat)
   if ct == t then none
   else if other.any (fun v => ct.coeff v != 0) then none
   else
-    let tc : Rat := if refine then 1 else -1
-    if forbidden.any (fun v => ct.coeff v != 0 && tc * sign (ct.coeff v) != sign (t.coeff v)) then none
+    if forbidden.any (fun v => ct.coeff v != 0 && tcOf refine * sign (ct.coeff v) != sign (t.coeff v)) then none
     else if ct.coeff iVar == 0 then none
     else
       let res : List Rat := (List.range forbidden.length).map fun j =>
@@ -151,24 +154,26 @@ def kayRow (t ct : PTerm) (forbidden other : List Var) (refine : Bool) (i : Nat)
       let bad := (List.range forbidden.length).any fun j => decide (Poly.rabs (t.coeff forbidden[j]!) ≤ ps[j]! + res[j]!)
       if bad then none else some res
 
+/-- the row-finding loop of `_get_kaykobad_context`: one context row per forbidden variable -/
+def kayLoop (t : PTerm) (H : TL) (forbidden other : List Var) (refine : Bool) :
+    Nat → Nat → TL → List Rat → Bool → Except Err (TL × Bool)
+  | _, 0, rows, _, others => .ok (rows, others)
+  | i, fuel + 1, rows, ps, others =>
+    if i ≥ forbidden.length then .ok (rows, others) else
+    let iVar := forbidden[i]!
+    let cands := Gen.list_diff H rows
+    match cands.findSome? (fun ct => (kayRow t ct forbidden other refine i iVar ps).map fun r => (ct, r)) with
+    | none => .error .valueError
+    | some (ct, res) =>
+      kayLoop t H forbidden other refine (i + 1) fuel (rows ++ [ct]) (List.zipWith (· + ·) ps res)
+        (others || !(Gen.list_diff ct.vars forbidden).isEmpty)
+
 /-- `_get_kaykobad_context` -/
 def kaykobadContext (t : PTerm) (H : TL) (xs : List Var) (refine : Bool) : Except Err (TL × List Var) :=
   let forbidden := Gen.list_intersection xs t.vars
   let other := Gen.list_diff xs t.vars
   let n := forbidden.length
-  let rec loop (i : Nat) (fuel : Nat) (rows : TL) (ps : List Rat) (others : Bool) : Except Err (TL × Bool) :=
-    match fuel with
-    | 0 => .ok (rows, others)
-    | fuel + 1 =>
-      if i ≥ n then .ok (rows, others) else
-      let iVar := forbidden[i]!
-      let cands := Gen.list_diff H rows
-      match cands.findSome? (fun ct => (kayRow t ct forbidden other refine i iVar ps).map fun r => (ct, r)) with
-      | none => .error .valueError
-      | some (ct, res) =>
-        loop (i + 1) fuel (rows ++ [ct]) (List.zipWith (· + ·) ps res)
-          (others || !(Gen.list_diff ct.vars forbidden).isEmpty)
-  match loop 0 n [] (List.replicate n 0) false with
+  match kayLoop t H forbidden other refine 0 n [] (List.replicate n 0) false with
   | .error e => .error e
   | .ok (rows, others) =>
     if !others && (Gen.list_diff t.vars xs).isEmpty then .error .valueError
@@ -179,17 +184,27 @@ def tactic1 (t : PTerm) (H : TL) (xs : List Var) (refine : Bool) : TacticRes :=
   | .error _ => .error .valueError
   | .ok (rows, forbidden) => reduceWith t rows forbidden
 
-/-- `_tactic_3`: the change of variable `_ = Σ cⱼ·xⱼ` over the conflict variables, then tactic 1.  `"_"` is variable 0. -/
+/-- an index used by none of the arguments -/
+def freshVar (t : PTerm) (H : TL) (xs : List Var) : Var := (t.vars ++ TL.vars H ++ xs).foldl max 0 + 1
+
+/-- the auxiliary variable of tactic 3: a name that clashes with nothing in use when the source picks it that way
+    (`Gen.tactic3Fresh`), otherwise the fixed name `"_"` = variable 0 -/
+def auxVar (t : PTerm) (H : TL) (xs : List Var) : Var := if Gen.tactic3Fresh then freshVar t H xs else 0
+
+/-- `_tactic_3`: the change of variable `w = Σ cⱼ·xⱼ` over the conflict variables, then tactic 1.  The conflict
+    variables are used as dictionary keys and as a set, so repeated entries (a repeated entry of `vars_to_elim`) collapse. -/
 def tactic3 (t : PTerm) (H : TL) (xs : List Var) (refine : Bool) : TacticRes :=
-  match Gen.list_intersection xs t.vars with
+  match (Gen.list_intersection xs t.vars).eraseDups with
   | [] => .error (.py "IndexError")
   | x0 :: rest =>
+    let w := auxVar t H xs
     let conflict := x0 :: rest
-    let nt : PTerm := PTerm.mk' (t.coeffs.filter (fun p => !decide (p.1 ∈ conflict)) ++ [(0, 1)]) t.const
+    let nt : PTerm := PTerm.mk' (t.coeffs.filter (fun p => !decide (p.1 ∈ conflict)) ++ [(w, 1)]) t.const
     let c0 := t.coeff x0
-    let substT : PTerm := PTerm.mk' ((0, 1 / c0) :: rest.map fun v => (v, -(t.coeff v) / c0)) 0
+    if c0 = 0 then .error (.py "ZeroDivisionError") else
+    let substT : PTerm := PTerm.mk' ((w, 1 / c0) :: rest.map fun v => (v, -(t.coeff v) / c0)) 0
     let nH := H.map fun el => el.subst x0 substT
-    let nxs := Gen.list_diff (Gen.list_union xs [0]) [x0]
+    let nxs := Gen.list_diff (Gen.list_union xs [w]) [x0]
     tactic1 nt nH nxs refine
 
 /-- `np.isclose(slack, 0)` -/
